@@ -1,6 +1,7 @@
 /- Line-protocol driver for the `monitor` engine (C20). -/
 import TmVerif.Base.Proto
 import TmVerif.Monitor.ZkLayer
+import TmVerif.Monitor.Create
 open TmVerif TmVerif.Proto TmVerif.Monitor
 
 def parsePolicy (s : String) : Policy :=
@@ -48,6 +49,10 @@ def stepLine (z : ZSt) (ws : List String) : ZSt × String :=
     | some d => (zstep z (.other (.tick d)), "ok")
     | none => (z, "bad-op")
   | ["reconn"] => (zstep z .reconnect, "ok")
+  | ["fcreate", count, loss] =>
+    match count.toNat?, optNat? loss with
+    | some c, some l => let r := createApps c l; (z, s!"{if r.2 then "ok" else "lost"} {r.1}")
+    | _, _ => (z, "bad-op")
   | ["rst", lw] =>
     -- the monitor process restarts: empty state at the current time, the suspension table it reads back;
     -- the registration-time deliveries of its new watches follow as `mon` / `sched` lines
